@@ -47,6 +47,7 @@ type Scenario struct {
 	L        *LimitCase     `json:"limit_case,omitempty"` // C08 grid point
 	K        *PinCase       `json:"pin_case,omitempty"`   // C18 key-pinning clause
 	Q        *GSelect       `json:"query,omitempty"`      // generator AST of the statement (C03/C05), used by the shrinker
+	CFaults  [][]Fault      `json:"client_faults,omitempty"` // C19: per-client fault plans (indexed by the client's own call sequence)
 	Faults   []Fault        `json:"faults,omitempty"`
 	Schedule []int          `json:"schedule,omitempty"`
 	Topology string         `json:"topology,omitempty"`
